@@ -3,9 +3,12 @@
 check of its property: apply to /repo, ./check, undo.  Records the outcome in seeded/<id>/meta.json
 ('detected_by') and prints a table.  /repo must be clean; evidence files are preserved."""
 import json, os, shutil, subprocess, sys, time
-os.chdir("/verif")
+ROOT = os.environ.get("VERIF_ROOT") or os.path.dirname(os.path.dirname(os.path.abspath(__file__)))
+REPO = os.environ.get("VERIF_REPO", "/repo")
+os.environ["VERIF_REPO"] = REPO
+os.chdir(ROOT)
 ids = sys.argv[1:] or sorted(os.listdir("seeded"))
-assert subprocess.run(["git", "-C", "/repo", "diff", "--quiet"]).returncode == 0, "/repo not clean"
+assert subprocess.run(["git", "-C", REPO, "diff", "--quiet"]).returncode == 0, "/repo not clean"
 rows = []
 for sid in ids:
     d = os.path.join("seeded", sid)
@@ -15,7 +18,7 @@ for sid in ids:
     bak = f"/var/tmp/ev_{pid}.bak"
     if os.path.exists(ev):
         shutil.copy(ev, bak)
-    a = subprocess.run(["git", "-C", "/repo", "apply", os.path.abspath(os.path.join(d, "patch.diff"))], capture_output=True, text=True)
+    a = subprocess.run(["git", "-C", REPO, "apply", os.path.abspath(os.path.join(d, "patch.diff"))], capture_output=True, text=True)
     if a.returncode != 0:
         rows.append((sid, pid, "PATCH-DOES-NOT-APPLY", "", 0))
         continue
@@ -24,7 +27,7 @@ for sid in ids:
         p = subprocess.run(["./check", pid, "--tier", "quick"], capture_output=True, text=True, timeout=3000)
         out = p.stdout
     finally:
-        subprocess.run(["git", "-C", "/repo", "checkout", "--", "."])
+        subprocess.run(["git", "-C", REPO, "checkout", "--", "."])
         if os.path.exists(bak):
             shutil.copy(bak, ev)
     dt = time.time() - t
@@ -36,7 +39,7 @@ for sid in ids:
         what = lines[i + 1].strip() if i + 1 < len(lines) else ""
     verdict = "missed" if vio is None else ("tie-broken-only" if "no-failing-input-found" in vio else "failing-input")
     meta["detected_by"] = dict(check=f"./check {pid} --tier quick", verdict=verdict, first_violation=what[:300], seconds=round(dt), exit_code=p.returncode,
-                               when=time.strftime("%Y-%m-%d %H:%M"), repo_commit=subprocess.check_output(["git", "-C", "/repo", "rev-parse", "--short", "HEAD"], text=True).strip())
+                               when=time.strftime("%Y-%m-%d %H:%M"), repo_commit=subprocess.check_output(["git", "-C", REPO, "rev-parse", "--short", "HEAD"], text=True).strip())
     json.dump(meta, open(os.path.join(d, "meta.json"), "w"), indent=1)
     rows.append((sid, pid, verdict, what[:110], round(dt)))
     print(rows[-1], flush=True)
